@@ -12,11 +12,11 @@ mod refmodel;
 
 use catalogue::Data;
 use linfa::traits::{Fit, Predict};
-use linfa::{Dataset, Float};
+use linfa::{DatasetBase, Float};
 use linfa_elasticnet::{ElasticNet, MultiTaskElasticNet};
 use linfa_linear::LinearRegression;
 use lvmc_core::{guarded, json, par_sweep, Ctx, Level, Value, Violation};
-use ndarray::{Array1, Array2};
+use ndarray::{s, Array1, Array2, ArrayView1, ArrayView2, ShapeBuilder};
 use refmodel::Prob;
 use serde::{Deserialize, Serialize};
 use std::collections::BTreeMap;
@@ -26,12 +26,12 @@ use std::sync::Mutex;
 /// Without one (penalty * l1_ratio == 0) the implementation's gap has no dual part (const = 0) and
 /// equals the primal objective, so on noisy targets it never falls below tol * ||y||^2 and the run
 /// ends on the cap whatever the budget (measured: 0.14 s / 0.54 s per such run at 1e5, which alone
-/// would cost more than the whole thorough budget): those runs get 2000 (quick: 500) and are judged
+/// would cost more than the whole thorough budget): those runs get 2000 (quick: 300) and are judged
 /// like any other run if they do converge.
 pub const MAX_ITER: u32 = 100_000;
 const MAX_ITER_QUICK: u32 = 10_000;
 const MAX_ITER_NO_L1: u32 = 2_000;
-const MAX_ITER_NO_L1_QUICK: u32 = 500;
+const MAX_ITER_NO_L1_QUICK: u32 = 300;
 const PENALTIES: [f64; 5] = [0.0, 0.01, 0.1, 1.0, 10.0];
 const L1_RATIOS: [f64; 3] = [0.0, 0.5, 1.0];
 const TOLS: [f64; 2] = [1e-4, 1e-8];
@@ -48,6 +48,17 @@ struct Case {
     intercept: bool,
     tol: f64,
     max_iter: u32,
+    /// memory layouts of the records / targets given to fit and of the records given to predict:
+    /// "std" | "f" | "t" | "rev" | "stride2" (see `hold2`)
+    #[serde(default = "std_layout")]
+    x_layout: String,
+    #[serde(default = "std_layout")]
+    y_layout: String,
+    #[serde(default = "std_layout")]
+    pred_layout: String,
+}
+fn std_layout() -> String {
+    "std".to_string()
 }
 
 #[derive(Clone, Debug)]
@@ -60,6 +71,23 @@ struct Spec {
     intercept: bool,
     tol: f64,
     max_iter: u32,
+    x_layout: &'static str,
+    y_layout: &'static str,
+    pred_layout: &'static str,
+}
+impl Spec {
+    fn is_std(&self) -> bool {
+        self.x_layout == "std" && self.y_layout == "std" && self.pred_layout == "std"
+    }
+}
+fn lay(s: &str) -> &'static str {
+    match s {
+        "f" => "f",
+        "t" => "t",
+        "rev" => "rev",
+        "stride2" => "stride2",
+        _ => "std",
+    }
 }
 
 #[derive(Default, Debug)]
@@ -103,22 +131,58 @@ enum Fail {
     Panic(String),
 }
 
-fn arr2<F: Float>(m: &[Vec<f64>]) -> Array2<F> {
+/// Backing storage of one logical n x p matrix in the requested memory layout:
+/// std = standard (row-major) owned; f = column-major owned; t = transposed view of a feature-major
+/// (p x n) array; rev = reversed-row view of a reversed copy; stride2 = every second row of a 2n x p
+/// array whose filler rows hold NaN (poison).
+fn hold2<F: Float>(m: &[Vec<f64>], kind: &str) -> Array2<F> {
     let n = m.len();
     let p = if n > 0 { m[0].len() } else { 0 };
-    Array2::from_shape_fn((n, p), |(i, j)| F::cast(m[i][j]))
+    match kind {
+        "f" => Array2::from_shape_fn((n, p).f(), |(i, j)| F::cast(m[i][j])),
+        "t" => Array2::from_shape_fn((p, n), |(j, i)| F::cast(m[i][j])),
+        "rev" => Array2::from_shape_fn((n, p), |(i, j)| F::cast(m[n - 1 - i][j])),
+        "stride2" => Array2::from_shape_fn((2 * n, p), |(i, j)| if i % 2 == 0 { F::cast(m[i / 2][j]) } else { F::nan() }),
+        _ => Array2::from_shape_fn((n, p), |(i, j)| F::cast(m[i][j])),
+    }
+}
+fn view2<'a, F: Float>(base: &'a Array2<F>, kind: &str) -> ArrayView2<'a, F> {
+    match kind {
+        "t" => base.t(),
+        "rev" => base.slice(s![..;-1, ..]),
+        "stride2" => base.slice(s![..;2, ..]),
+        _ => base.view(),
+    }
+}
+/// 1-D targets: std, rev (reversed view of a reversed copy), stride2 (every second element, NaN filler);
+/// "f" / "t" do not exist in one dimension and fall back to std.
+fn hold1<F: Float>(v: &[f64], kind: &str) -> Array1<F> {
+    let n = v.len();
+    match kind {
+        "rev" => Array1::from_shape_fn(n, |i| F::cast(v[n - 1 - i])),
+        "stride2" => Array1::from_shape_fn(2 * n, |i| if i % 2 == 0 { F::cast(v[i / 2]) } else { F::nan() }),
+        _ => Array1::from_shape_fn(n, |i| F::cast(v[i])),
+    }
+}
+fn view1<'a, F: Float>(base: &'a Array1<F>, kind: &str) -> ArrayView1<'a, F> {
+    match kind {
+        "rev" => base.slice(s![..;-1]),
+        "stride2" => base.slice(s![..;2]),
+        _ => base.view(),
+    }
 }
 fn f64of<F: Float>(x: F) -> f64 {
     x.to_f64().unwrap()
 }
 
 fn fit_ols<F: Float>(x: &[Vec<f64>], y: &[Vec<f64>], s: &Spec) -> Result<FitOut, Fail> {
-    let xa: Array2<F> = arr2(x);
-    let ya: Array1<F> = Array1::from_iter(y.iter().map(|r| F::cast(r[0])));
+    let (xb, xpb): (Array2<F>, Array2<F>) = (hold2(x, s.x_layout), hold2(x, s.pred_layout));
+    let yb: Array1<F> = hold1(&y.iter().map(|r| r[0]).collect::<Vec<_>>(), s.y_layout);
+    let (xa, xp, ya) = (view2(&xb, s.x_layout), view2(&xpb, s.pred_layout), view1(&yb, s.y_layout));
     let r = guarded(|| {
-        let ds = Dataset::new(xa.clone(), ya.clone());
+        let ds = DatasetBase::new(xa, ya);
         LinearRegression::new().with_intercept(s.intercept).fit(&ds).map(|m| {
-            let pred: Array1<F> = m.predict(&xa);
+            let pred: Array1<F> = m.predict(&xp);
             (m.params().to_vec(), m.intercept(), pred.to_vec())
         })
     });
@@ -136,10 +200,11 @@ fn fit_ols<F: Float>(x: &[Vec<f64>], y: &[Vec<f64>], s: &Spec) -> Result<FitOut,
 }
 
 fn fit_enet<F: Float>(x: &[Vec<f64>], y: &[Vec<f64>], s: &Spec) -> Result<FitOut, Fail> {
-    let xa: Array2<F> = arr2(x);
-    let ya: Array1<F> = Array1::from_iter(y.iter().map(|r| F::cast(r[0])));
+    let (xb, xpb): (Array2<F>, Array2<F>) = (hold2(x, s.x_layout), hold2(x, s.pred_layout));
+    let yb: Array1<F> = hold1(&y.iter().map(|r| r[0]).collect::<Vec<_>>(), s.y_layout);
+    let (xa, xp, ya) = (view2(&xb, s.x_layout), view2(&xpb, s.pred_layout), view1(&yb, s.y_layout));
     let r = guarded(|| {
-        let ds = Dataset::new(xa.clone(), ya.clone());
+        let ds = DatasetBase::new(xa, ya);
         ElasticNet::<F>::params()
             .penalty(F::cast(s.penalty))
             .l1_ratio(F::cast(s.l1_ratio))
@@ -148,7 +213,7 @@ fn fit_enet<F: Float>(x: &[Vec<f64>], y: &[Vec<f64>], s: &Spec) -> Result<FitOut
             .max_iterations(s.max_iter)
             .fit(&ds)
             .map(|m| {
-                let pred: Array1<F> = m.predict(&xa);
+                let pred: Array1<F> = m.predict(&xp);
                 (m.hyperplane().to_vec(), m.intercept(), m.duality_gap(), m.n_steps(), pred.to_vec())
             })
     });
@@ -166,10 +231,11 @@ fn fit_enet<F: Float>(x: &[Vec<f64>], y: &[Vec<f64>], s: &Spec) -> Result<FitOut
 }
 
 fn fit_mtl<F: Float>(x: &[Vec<f64>], y: &[Vec<f64>], s: &Spec) -> Result<FitOut, Fail> {
-    let xa: Array2<F> = arr2(x);
-    let ya: Array2<F> = arr2(y);
+    let (xb, xpb): (Array2<F>, Array2<F>) = (hold2(x, s.x_layout), hold2(x, s.pred_layout));
+    let yb: Array2<F> = hold2(y, s.y_layout);
+    let (xa, xp, ya) = (view2(&xb, s.x_layout), view2(&xpb, s.pred_layout), view2(&yb, s.y_layout));
     let r = guarded(|| {
-        let ds = Dataset::new(xa.clone(), ya.clone());
+        let ds = DatasetBase::new(xa, ya);
         MultiTaskElasticNet::<F>::params()
             .penalty(F::cast(s.penalty))
             .l1_ratio(F::cast(s.l1_ratio))
@@ -178,7 +244,7 @@ fn fit_mtl<F: Float>(x: &[Vec<f64>], y: &[Vec<f64>], s: &Spec) -> Result<FitOut,
             .max_iterations(s.max_iter)
             .fit(&ds)
             .map(|m| {
-                let pred: Array2<F> = m.predict(&xa);
+                let pred: Array2<F> = m.predict(&xp);
                 (m.hyperplane().clone(), m.intercept().to_vec(), m.duality_gap(), m.n_steps(), pred)
             })
     });
@@ -225,7 +291,7 @@ fn round_to(float: &str, v: f64) -> f64 {
 }
 
 /// Runs one fit and judges it. Pure function of (data, spec).
-fn run_fit(data: &Data, s: &Spec, viols: &mut Vec<Violation>, st: &mut Stats) {
+fn run_fit(data: &Data, s: &Spec, viols: &mut Vec<Violation>, st: &mut Stats) -> Option<FitOut> {
     let n = data.x.len();
     let p = data.x[0].len();
     // the numbers as the subject sees them (after rounding to its float type)
@@ -243,6 +309,9 @@ fn run_fit(data: &Data, s: &Spec, viols: &mut Vec<Violation>, st: &mut Stats) {
             intercept: s.intercept,
             tol: s.tol,
             max_iter: s.max_iter,
+            x_layout: s.x_layout.to_string(),
+            y_layout: s.y_layout.to_string(),
+            pred_layout: s.pred_layout.to_string(),
         })
         .unwrap()
     };
@@ -253,7 +322,7 @@ fn run_fit(data: &Data, s: &Spec, viols: &mut Vec<Violation>, st: &mut Stats) {
     let regularised = s.est != "ols" && s.penalty > 0.0 && s.l1_ratio < 1.0;
     if !full_rank && !regularised {
         st.inc("out_of_domain_rank_deficient_unregularised");
-        return;
+        return None;
     }
     st.inc("fits");
     if !full_rank {
@@ -291,16 +360,16 @@ fn run_fit(data: &Data, s: &Spec, viols: &mut Vec<Violation>, st: &mut Stats) {
         Ok(o) => o,
         Err(Fail::Error(e)) => {
             viols.push(Violation::new(format!("{}.fit.unexpected_error", s.est), format!("fit on in-domain data (n={}, p={}, t={}) returned Err({})", n, p, t, e), case_json()));
-            return;
+            return None;
         }
         Err(Fail::Panic(m)) => {
             viols.push(Violation::new(format!("{}.fit.panic", s.est), format!("fit on in-domain data (n={}, p={}, t={}) panicked: {}", n, p, t, m), case_json()));
-            return;
+            return None;
         }
     };
     if out.w.len() != p || out.b.len() != t || out.w.iter().any(|r| r.len() != t) || out.pred.len() != n {
         viols.push(Violation::new(format!("{}.fit.wrong_shape", s.est), format!("coefficients {}x{}, intercepts {}, predictions {} for n={}, p={}, t={}", out.w.len(), out.w.first().map_or(0, |r| r.len()), out.b.len(), out.pred.len(), n, p, t), case_json()));
-        return;
+        return None;
     }
     let finite = out.w.iter().flatten().chain(out.b.iter()).all(|v| v.is_finite()) && out.gap.is_finite();
     if !finite {
@@ -311,10 +380,10 @@ fn run_fit(data: &Data, s: &Spec, viols: &mut Vec<Violation>, st: &mut Stats) {
                 format!("every coefficient is NaN (gap {}, n_steps {}) with penalty*l1_ratio = 0: block soft-thresholding of an exactly zero correlation vector with threshold 0 divides 0 by 0", out.gap, out.n_steps),
                 case_json(),
             ));
-            return;
+            return None;
         }
         viols.push(Violation::new(format!("{}.fit.non_finite", s.est), format!("non-finite result: w={:?} b={:?} gap={}", out.w, out.b, out.gap), case_json()));
-        return;
+        return None;
     }
 
     // ---- predict == X w + b (always, also for unconverged runs)
@@ -328,18 +397,18 @@ fn run_fit(data: &Data, s: &Spec, viols: &mut Vec<Violation>, st: &mut Stats) {
             }
             if (v - out.pred[i][tt]).abs() > tl.c_pred * mag.max(1e-300) {
                 viols.push(Violation::new(format!("{}.predict.not_xw_plus_b", s.est), format!("row {} target {}: predict = {} but x.w + b = {}", i, tt, out.pred[i][tt], v), case_json()));
-                return;
+                return None;
             }
         }
     }
     if !s.intercept && out.b.iter().any(|&b| b != 0.0) {
         viols.push(Violation::new(format!("{}.intercept.nonzero_without_intercept", s.est), format!("with_intercept(false) but intercept = {:?}", out.b), case_json()));
-        return;
+        return None;
     }
 
     if s.est == "ols" {
         judge_ols(&x, &y, s, &out, &tl, viols, st, &case_json);
-        return;
+        return Some(out);
     }
 
     let prob = Prob::new(&x, &y, s.penalty * s.l1_ratio, s.penalty * (1.0 - s.l1_ratio));
@@ -360,7 +429,7 @@ fn run_fit(data: &Data, s: &Spec, viols: &mut Vec<Violation>, st: &mut Stats) {
                 case_json(),
             ));
         }
-        return;
+        return Some(out);
     }
     st.inc("judged_converged");
     if prob.lam1 > 0.0 && refmodel::orthogonal_centred(&x) {
@@ -483,6 +552,7 @@ fn run_fit(data: &Data, s: &Spec, viols: &mut Vec<Violation>, st: &mut Stats) {
         }
     }
 
+    Some(out)
 }
 
 fn judge_ols(x: &[Vec<f64>], y: &[Vec<f64>], s: &Spec, out: &FitOut, tl: &Tol, viols: &mut Vec<Violation>, st: &mut Stats, case_json: &dyn Fn() -> Value) {
@@ -601,6 +671,105 @@ fn spec_of(c: &Case) -> Spec {
         intercept: c.intercept,
         tol: c.tol,
         max_iter: c.max_iter,
+        x_layout: lay(&c.x_layout),
+        y_layout: lay(&c.y_layout),
+        pred_layout: lay(&c.pred_layout),
+    }
+}
+
+/// One case. Standard layout: the fit is run and judged. Any other layout: the same case is first run
+/// in standard layout (its verdicts are not reported again), then in the requested layout (judged by all
+/// oracles), and the two fitted models must agree.
+fn run_case(data: &Data, s: &Spec, viols: &mut Vec<Violation>, st: &mut Stats) {
+    if s.is_std() {
+        run_fit(data, s, viols, st);
+        return;
+    }
+    let mut std_spec = s.clone();
+    std_spec.x_layout = "std";
+    std_spec.y_layout = "std";
+    std_spec.pred_layout = "std";
+    let mut std_viols = Vec::new();
+    let mut std_stats = Stats::default();
+    let a = run_fit(data, &std_spec, &mut std_viols, &mut std_stats);
+    st.inc("layout_std_reference_runs");
+    let before = viols.len();
+    let b = run_fit(data, s, viols, st);
+    st.inc("layout_variant_runs");
+    let case_json = || -> Value {
+        let mut c = serde_json::to_value(Case {
+            data: data.clone(),
+            float: s.float.to_string(),
+            est: s.est.to_string(),
+            targets: s.targets.clone(),
+            penalty: s.penalty,
+            l1_ratio: s.l1_ratio,
+            intercept: s.intercept,
+            tol: s.tol,
+            max_iter: s.max_iter,
+            x_layout: s.x_layout.to_string(),
+            y_layout: s.y_layout.to_string(),
+            pred_layout: s.pred_layout.to_string(),
+        })
+        .unwrap();
+        c.as_object_mut().unwrap().insert("layout_family".into(), json!(true));
+        c
+    };
+    let layouts = format!("records {} / targets {} / predict {}", s.x_layout, s.y_layout, s.pred_layout);
+    let sigs = |v: &[Violation]| -> Vec<String> {
+        let mut x: Vec<String> = v.iter().map(|q| q.sig.clone()).collect();
+        x.sort();
+        x.dedup();
+        x
+    };
+    // hard failures (error / panic / NaN / shape / predict) must coincide; tolerance-based verdicts may sit on
+    // their margin and flip with the rounding order, they are reported by the oracles themselves
+    let hard = |v: Vec<String>| -> Vec<String> { v.into_iter().filter(|q| q.contains(".fit.") || q.contains(".predict.") || q.contains(".intercept.nonzero")).collect() };
+    let (sa, sb) = (hard(sigs(&std_viols)), hard(sigs(&viols[before..])));
+    if sa != sb || a.is_some() != b.is_some() {
+        viols.push(Violation::new(
+            format!("{}.layout_dependence", s.est),
+            format!("{}: verdicts differ from the standard-layout run of the same case: standard {:?} (model returned: {}), this layout {:?} (model returned: {})", layouts, sa, a.is_some(), sb, b.is_some()),
+            case_json(),
+        ));
+        return;
+    }
+    let (Some(a), Some(b)) = (a, b) else { return };
+    let capped = s.est != "ols" && (a.n_steps >= s.max_iter || b.n_steps >= s.max_iter);
+    if capped {
+        st.inc("layout_compare_skipped_iteration_cap");
+        return;
+    }
+    // fitted values X w + b of the two models, in f64 on the numbers as rounded to the float type
+    let n = data.x.len();
+    let t = s.targets.len();
+    let x: Vec<Vec<f64>> = data.x.iter().map(|r| r.iter().map(|&v| round_to(s.float, v)).collect()).collect();
+    let fitted = |m: &FitOut| -> Vec<f64> {
+        let mut out = Vec::with_capacity(n * t);
+        for i in 0..n {
+            for tt in 0..t {
+                out.push(m.b[tt] + (0..x[i].len()).map(|j| x[i][j] * m.w[j][tt]).sum::<f64>());
+            }
+        }
+        out
+    };
+    let (fa, fb) = (fitted(&a), fitted(&b));
+    let diff = fa.iter().zip(fb.iter()).map(|(u, v)| (u - v) * (u - v)).sum::<f64>().sqrt();
+    let scale = fa.iter().map(|v| v * v).sum::<f64>().sqrt() + data.y.iter().flatten().map(|v| v * v).sum::<f64>().sqrt();
+    let c_l = if s.float == "f32" { 1e-4 } else { 1e-9 };
+    // two points whose suboptimality is bounded by their gaps: ||Xw1 - Xw2|| <= sqrt(2 G1) + sqrt(2 G2)
+    let limit = c_l * scale + (2.0 * a.gap.max(0.0)).sqrt() + (2.0 * b.gap.max(0.0)).sqrt();
+    st.inc("layout_models_compared");
+    st.max(if s.float == "f32" { "layout_max_difference_over_limit_f32" } else { "layout_max_difference_over_limit_f64" }, diff / limit.max(1e-300));
+    if a.w == b.w && a.b == b.b {
+        st.inc("layout_models_bit_identical");
+    }
+    if diff > limit {
+        viols.push(Violation::new(
+            format!("{}.layout_dependence", s.est),
+            format!("{}: fitted values differ from the standard-layout fit by {:e} (limit {:e}); standard w={:?} b={:?} (n_steps {}), this layout w={:?} b={:?} (n_steps {})", layouts, diff, limit, a.w, a.b, a.n_steps, b.w, b.b, b.n_steps),
+            case_json(),
+        ));
     }
 }
 
@@ -614,7 +783,7 @@ fn replay_value(v: &Value) -> Vec<Violation> {
     };
     let mut out = Vec::new();
     let mut st = Stats::default();
-    run_fit(&c.data, &spec_of(&c), &mut out, &mut st);
+    run_case(&c.data, &spec_of(&c), &mut out, &mut st);
     out
 }
 
@@ -622,31 +791,108 @@ struct Task {
     data: usize,
     float: &'static str,
     est: &'static str,
+    /// false: the parameter grid in standard layout; true: the layout family (spec subset x layouts)
+    layouts: bool,
+    /// large members: the grid is split by penalty into 5 tasks (parallelism); None = whole grid
+    penalty_chunk: Option<usize>,
 }
 
-fn specs_for(ctx: &Ctx, task: &Task) -> Vec<Spec> {
+const LAYOUT_DESIGNS: [&str; 4] = ["p2_n6_ff2x3", "p3_n9_frac3x3x3_latin_square", "p2_n16_ff4x4", "p2_n1025_ff2x3_cyclic"];
+
+/// Members of the layout family: well-conditioned images (offset in {0, 5}, one scale in {1, 1e3} for all columns).
+fn in_layout_family(d: &Data, thorough: bool) -> bool {
+    if d.variant != "full_rank" || !LAYOUT_DESIGNS.contains(&d.design.as_str()) {
+        return false;
+    }
+    let (o, sc) = (d.offsets[0], d.scales[0]);
+    if d.offsets.iter().any(|&v| v != o) || d.scales.iter().any(|&v| v != sc) {
+        return false;
+    }
+    if thorough {
+        (o == 0.0 || o == 5.0) && (sc == 1.0 || sc == 1e3)
+    } else {
+        d.x.len() < 1000 && ((o == 5.0 && sc == 1.0) || (o == 0.0 && sc == 1e3))
+    }
+}
+
+fn layout_specs(ctx: &Ctx, task: &Task) -> Vec<Spec> {
+    let two_d = task.est == "mtl";
+    let mut combos: Vec<(&'static str, &'static str, &'static str)> = Vec::new();
+    for l in ["f", "t", "rev", "stride2"] {
+        combos.push((l, "std", l));
+    }
+    for l in if two_d { vec!["f", "t", "rev", "stride2"] } else { vec!["rev", "stride2"] } {
+        combos.push(("std", l, "std"));
+    }
+    combos.push(("t", "stride2", "rev"));
+    combos.push(("stride2", "rev", "f"));
+    let mut v = Vec::new();
+    for (xl, yl, pl) in combos {
+        if task.est == "ols" {
+            for intercept in [true, false] {
+                v.push(Spec { float: task.float, est: "ols", targets: vec![0], penalty: 0.0, l1_ratio: 0.0, intercept, tol: 0.0, max_iter: 0, x_layout: xl, y_layout: yl, pred_layout: pl });
+            }
+        } else {
+            for penalty in [0.01, 1.0] {
+                for l1_ratio in [0.5, 1.0] {
+                    for intercept in [true, false] {
+                        v.push(Spec {
+                            float: task.float,
+                            est: if two_d { "mtl" } else { "enet" },
+                            targets: if two_d { vec![0, 1, 2] } else { vec![0] },
+                            penalty,
+                            l1_ratio,
+                            intercept,
+                            // f32 cannot resolve a gap of 1e-8 ||y||^2: those runs would only end on the cap
+                            tol: if task.float == "f32" { 1e-4 } else { 1e-8 },
+                            max_iter: ctx.pick(MAX_ITER_QUICK, MAX_ITER),
+                            x_layout: xl,
+                            y_layout: yl,
+                            pred_layout: pl,
+                        });
+                    }
+                }
+            }
+        }
+    }
+    v
+}
+
+fn specs_for(ctx: &Ctx, task: &Task, reduced_targets: bool) -> Vec<Spec> {
+    if task.layouts {
+        return layout_specs(ctx, task);
+    }
     let mut v = Vec::new();
     match task.est {
         "ols" => {
             for tcol in 0..3 {
                 for intercept in [true, false] {
-                    v.push(Spec { float: task.float, est: "ols", targets: vec![tcol], penalty: 0.0, l1_ratio: 0.0, intercept, tol: 0.0, max_iter: 0 });
+                    v.push(Spec { float: task.float, est: "ols", targets: vec![tcol], penalty: 0.0, l1_ratio: 0.0, intercept, tol: 0.0, max_iter: 0, x_layout: "std", y_layout: "std", pred_layout: "std" });
                 }
             }
         }
         est => {
-            let target_sets: Vec<Vec<usize>> = if est == "enet" {
+            let target_sets: Vec<Vec<usize>> = if reduced_targets {
+                if est == "enet" {
+                    vec![vec![0]]
+                } else {
+                    vec![vec![0, 1, 2]]
+                }
+            } else if est == "enet" {
                 ctx.pick(vec![vec![0], vec![2]], vec![vec![0], vec![1], vec![2]])
             } else {
                 ctx.pick(vec![vec![0, 1, 2]], vec![vec![0], vec![0, 1], vec![0, 1, 2]])
             };
             for targets in target_sets {
-                for &penalty in &PENALTIES {
+                for (pi, &penalty) in PENALTIES.iter().enumerate() {
+                    if task.penalty_chunk.map_or(false, |c| c != pi) {
+                        continue;
+                    }
                     for &l1_ratio in &L1_RATIOS {
                         for intercept in [true, false] {
                             for &tol in &TOLS {
                                 let max_iter = if penalty * l1_ratio > 0.0 { ctx.pick(MAX_ITER_QUICK, MAX_ITER) } else { ctx.pick(MAX_ITER_NO_L1_QUICK, MAX_ITER_NO_L1) };
-                                v.push(Spec { float: task.float, est: if est == "enet" { "enet" } else { "mtl" }, targets: targets.clone(), penalty, l1_ratio, intercept, tol, max_iter });
+                                v.push(Spec { float: task.float, est: if est == "enet" { "enet" } else { "mtl" }, targets: targets.clone(), penalty, l1_ratio, intercept, tol, max_iter, x_layout: "std", y_layout: "std", pred_layout: "std" });
                             }
                         }
                     }
@@ -667,8 +913,10 @@ fn main() {
          variants: an appended constant column (0, 1 or 5000) and an appended duplicate of column 0, run only with penalty > 0 and l1_ratio < 1; targets = fixed linear function of the centred lattice coordinates + constant + fixed noise table, 3 columns. \
          plus 'even_targets' members (integer targets that are an even function of column 0, so column 0 is exactly orthogonal to them). \
          Tall designs (n in {16, 24, 40} >= 8 x columns, p in {1, 2}; quick {16, 40}) carry the same images and, for OLS only, strongly offset images (offset 1e7 in f64, 2000 in f32 and f64, unit spacing; p = 2: both columns / one column). \
+         Large replicated members: the 4-level, 2x3 and Latin-square designs repeated cyclically to n in {1025, 4097} (quick: 2x3 at 1025), images (0,1), (5,1), (0,1e3), all estimators with reduced target sets. \
+         Layout family: on the well-conditioned images (offset {0,5}, scale {1,1e3}) of four designs (n = 6, 9, 16, 1025) every estimator is also run with records / targets / predict input as column-major owned array (f), transposed view of a feature-major array (t), reversed-row view of a reversed copy (rev), every second row of a larger array with NaN filler rows (stride2): 8 (1-D targets) or 10 layout combinations x {OLS intercept on/off; penalty {.01,1} x l1_ratio {.5,1} x intercept x tol 1e-8 (f32: 1e-4)}. \
          Estimators: OLS (each target column, intercept on / off), ElasticNet (single target columns), MultiTaskElasticNet (first 1..3 target columns; quick: all 3); grid penalty {0,.01,.1,1,10} x l1_ratio {0,.5,1} x intercept {on,off} x tol {1e-4,1e-8}; \
-         max_iterations 1e5 (quick 1e4) when penalty*l1_ratio > 0, 2000 (quick 500) when penalty*l1_ratio = 0 (the implementation's gap then equals the primal objective and never closes on noisy targets); f32 and f64. \
+         max_iterations 1e5 (quick 1e4) when penalty*l1_ratio > 0, 2000 (quick 300) when penalty*l1_ratio = 0 (the implementation's gap then equals the primal objective and never closes on noisy targets); f32 and f64. \
          Every member is run. evaluations = fits; a fit that ends on the iteration cap is counted in not_converged_iteration_cap and not judged (except on mean-zero orthogonal designs with an l1 part, where ending on the cap is itself a violation); \
          non-trivial = judged elastic-net fit with at least one non-zero coefficient, or OLS fit with a non-zero residual.",
     );
@@ -681,6 +929,7 @@ fn main() {
     ctx.assume("OLS: |x_j.r| <= c x ||x_j|| x S, |1.r| <= c x sqrt(n) x S and, with intercept, |(x_j - mean_j).r| <= c x ||x_j - mean_j|| x S, with S = ||y|| + sum_k ||x_k|| |beta_k| + sqrt(n)|b| (backward-error scale of a least-squares solve), c = 1e-12 (f64) / 1e-5 (f32) (a Householder QR stays below 1e-3 of these on the whole catalogue, see ols_max_*_ratio); SSE ladder slack (c S)^2");
     ctx.assume("OLS: SSE <= reference minimum + (c (S + kappa ||r||))^2 + 8 eps_f64 x evaluation magnitude; reference = modified Gram-Schmidt on the augmented matrix of centred (with intercept), unit-norm columns in f64; both SSEs are evaluated on the centred data; kappa = the reference's condition estimate of [X | 1]");
     ctx.assume("predict == X w + b within 1e-12 (f64) / 1e-5 (f32) x (sum |x_ij w_j| + |b|)");
+    ctx.assume("layout family: every layout run is judged by all oracles and must give the same verdicts as the standard-layout run of the same case; fitted values X w + b of the two models (f64) must agree within 1e-9 (f64) / 1e-4 (f32) x (||fitted|| + ||y||) + sqrt(2 gap_1) + sqrt(2 gap_2) (two points whose suboptimality is bounded by their gaps); runs on the iteration cap are not compared (counted); arithmetic order of ndarray's dot differs between contiguous and strided columns, so bit-identity is only counted (layout_models_bit_identical), not demanded");
     ctx.assume("domain: [X | 1 if intercept] has full column rank (lvmc_core::refmath::rank on unit-norm columns, pivot tolerance 1e-7) — otherwise the case is run only with penalty > 0 and l1_ratio < 1 and counted out of domain else");
     ctx.assume("'mean-zero orthogonal design' (where the iteration cap is a violation): |mean_j| <= 1e-6 rms_j and |x_j.x_k| <= 1e-6 ||x_j|| ||x_k||, l1 part > 0, f64 — or f32 with tol >= 1e-4 and all non-zero |x_ij| in [1e-2, 1e2] (beyond that the f32 gap cannot resolve tol x ||y||^2)");
     ctx.assume("narrow signature *.intercept_is_target_mean_on_offset_features_not_joint_optimum is assigned only when the intercept equals mean(y) (1e-12 / 1e-5 relative), some column mean is non-zero (> 1e-6 rms), no coefficient / row perturbation beats the gap (the coefficients are optimal for the frozen intercept) and the intercept move or the joint reference optimum does");
@@ -697,7 +946,16 @@ fn main() {
                 if d.ols_only && est != "ols" {
                     continue;
                 }
-                tasks.push(Task { data: i, float, est });
+                if d.reduced_targets && est != "ols" {
+                    for c in 0..PENALTIES.len() {
+                        tasks.push(Task { data: i, float, est, layouts: false, penalty_chunk: Some(c) });
+                    }
+                } else {
+                    tasks.push(Task { data: i, float, est, layouts: false, penalty_chunk: None });
+                }
+                if in_layout_family(d, thorough) {
+                    tasks.push(Task { data: i, float, est, layouts: true, penalty_chunk: None });
+                }
             }
         }
     }
@@ -710,7 +968,8 @@ fn main() {
         json!(catalogue::designs().iter().map(|d| (d.id.to_string(), format!("{:?}", if thorough { d.thorough } else { d.quick }))).collect::<BTreeMap<String, String>>()),
     );
     ctx.extra("data_sets_enumerated", json!(datas.len()));
-    let expected: u64 = tasks.iter().map(|t| specs_for(&ctx, t).len() as u64).sum();
+    let expected: u64 = tasks.iter().map(|t| specs_for(&ctx, t, datas[t.data].reduced_targets).len() as u64).sum();
+    ctx.extra("layout_family_data_sets", json!(datas.iter().filter(|d| in_layout_family(d, thorough)).count()));
     ctx.extra("fits_enumerated", json!(expected));
 
     let global = Mutex::new(Stats::default());
@@ -718,11 +977,11 @@ fn main() {
         let data = &datas[task.data];
         let mut st = Stats::default();
         let mut v = Vec::new();
-        let specs = specs_for(&ctx, task);
+        let specs = specs_for(&ctx, task, data.reduced_targets);
         for s in &specs {
             let before = st.n.get("judged_nontrivial_nonzero_coefficients").copied().unwrap_or(0) + st.n.get("ols_nontrivial_nonzero_residual").copied().unwrap_or(0);
             let fits_before = st.n.get("fits").copied().unwrap_or(0);
-            run_fit(data, s, &mut v, &mut st);
+            run_case(data, s, &mut v, &mut st);
             let after = st.n.get("judged_nontrivial_nonzero_coefficients").copied().unwrap_or(0) + st.n.get("ols_nontrivial_nonzero_residual").copied().unwrap_or(0);
             if st.n.get("fits").copied().unwrap_or(0) > fits_before {
                 ctx.eval(after > before);
@@ -732,7 +991,7 @@ fn main() {
         }
         st.add("specs_visited", specs.len() as u64);
         ctx.violations(v);
-        ctx.sample(|| json!({"design": data.design, "variant": data.variant, "offsets": data.offsets, "scales": data.scales, "x": data.x, "y": data.y, "float": task.float, "estimator": task.est, "fits": specs.len()}));
+        ctx.sample(|| json!({"design": data.design, "variant": data.variant, "offsets": data.offsets, "scales": data.scales, "n": data.x.len(), "x_first_rows": data.x.iter().take(12).collect::<Vec<_>>(), "y_first_rows": data.y.iter().take(12).collect::<Vec<_>>(), "float": task.float, "estimator": task.est, "layout_family": task.layouts, "fits": specs.len()}));
         global.lock().unwrap().merge(st);
     });
     let g = global.into_inner().unwrap();
